@@ -18,7 +18,9 @@ def _configs(tier):
            dict(name='ftz-all-off-f64', real=8, have=CPLX, harness=['h_real_ftz.c'], nworkers=2),
            dict(name='ftz-all-off-f32', real=4, have=CPLX, harness=['h_real_ftz.c'], nworkers=2)] + \
           ([dict(name='ftz-all-on-f32', real=4, have=REAL_SW + CPLX, harness=['h_real_ftz.c'], nworkers=2)] if tier != 'quick' else [])
-    return _configs0(tier) + _arms(tier) + ftz
+    # the library built with -fopenmp (as setup.py / python/CMakeLists.txt do under LIBA_OPENMP): pragmas guarded by _OPENMP are live there (seeded change C09-K)
+    omp = [dict(name='all-on-f64-openmp', real=8, have=REAL_SW + CPLX, cflags=['-fopenmp'], nworkers=2, of=4)]
+    return _configs0(tier) + _arms(tier) + ftz + omp
 
 
 def _configs0(tier):
@@ -45,7 +47,7 @@ def _configs0(tier):
 SPEC = dict(
     harness=['h_real.c', 'h_real_ext.c'],
     configs=_configs,
-    parallel_configs=9,
+    parallel_configs=10,
     lib_sources=['math.c', 'a.c'],
     workers={'quick': 9, 'thorough': 18},
     level='exploration',
